@@ -102,7 +102,8 @@ def rows_of(q, xs, sel, m, form="set_of"):
 
 
 def run_an(world, kinds, cond, sel, *, form="set_of", how="let", order=None, perm=None, caching=True,
-           register=True, split_top_and=False, quant="an", times=1, take_first=0, consume_in_block=False, keep_first=False):
+           register=True, split_top_and=False, quant="an", times=1, take_first=0, consume_in_block=False, keep_first=False,
+           first_under_other_switch=False):
     """Build a fresh query and evaluate it `times` times.  Returns list of row lists (one per evaluation)."""
     from entity_query_language.cache_data import enable_caching, disable_caching
     m = labels_of(world)
@@ -111,6 +112,11 @@ def run_an(world, kinds, cond, sel, *, form="set_of", how="let", order=None, per
     try:
         q, xs = build_query(kinds, doms, cond, sel, form=form, how=how, order=order, register=register,
                             split_top_and=split_top_and, quant=quant)
+        if first_under_other_switch:    # an earlier COMPLETE evaluation while the caching switch was the other way round
+            (disable_caching if caching else enable_caching)()
+            for _ in q.evaluate():
+                pass
+            (enable_caching if caching else disable_caching)()
         if take_first:      # an earlier evaluation that is abandoned after a few results
             it = q.evaluate()
             for _ in range(take_first):
